@@ -514,6 +514,19 @@ func (x *run) checkRead(rs *repState, nb *bugObs, b *bug.Bug) {
 	}
 	if x.on("C10") {
 		x.checkCompile(rs, nb, b)
+		// the second half of the statement: the state the cache maintains incrementally (operations
+		// applied to a live snapshot one by one as they are appended or merged in) equals a compilation
+		// from scratch of what is stored
+		if rs.r.Cache != nil && rs.alive && !rs.staged[id] {
+			if bc, err := rs.r.Cache.Bugs().Resolve(entity.Id(id)); err == nil {
+				live := model.FromSnapshot(bc.Snapshot())
+				want := model.Interpret(nb.Ent.OrderedOps())
+				x.probe("incremental_snapshot_compared")
+				if k, d := want.Diff(live); k != "" {
+					x.violate("incremental-differs-from-scratch", "bug %s on %s: the snapshot the cache maintains differs from the interpretation of the stored operations in %s: %s", id[:7], rs.r.Name, k, d)
+				}
+			}
+		}
 	}
 }
 
